@@ -12,7 +12,7 @@ import ast
 from dataclasses import dataclass
 from typing import Any, Dict, Optional
 
-from .loader import AnalysisError, Program, dotted
+from .loader import AnalysisError, Program, dotted, norm
 
 
 class _Unknown:
@@ -768,64 +768,131 @@ class Folder:
 
 
 # ---------------------------------------------------------------------------------------------
+def _interp_init(program: Program, folder: Folder, cls_qual: str, argenv: dict, depth=0) -> dict:
+    """Abstractly run cls_qual.__init__ (resolved through the MRO) on folded arguments: returns {field: folded value}.
+    Understands self.f = e, local = e, if/else on a foldable test (both arms otherwise: a field set differently becomes unknown),
+    and delegation to a base-class __init__ (Base.__init__(self, ..), super().__init__(..), super(C, self).__init__(..))."""
+    iq = program.lookup_method(cls_qual, "__init__")
+    if iq is None or depth > 4:
+        return {}
+    fi = program.func(iq)
+    mod = fi.module
+    env = dict(argenv)
+    fields: dict = {}
+
+    class _SelfProxy:
+        pass
+
+    def run(stmts):
+        for st in stmts:
+            if isinstance(st, ast.Expr) and isinstance(st.value, ast.Call):
+                c = st.value
+                f = c.func
+                if isinstance(f, ast.Attribute) and f.attr == "__init__":
+                    args = list(c.args)
+                    base = None
+                    if isinstance(f.value, ast.Call) and dotted(f.value.func) == "super":
+                        mro = program.mro(fi.cls)
+                        base = mro[mro.index(fi.cls) + 1] if fi.cls in mro and mro.index(fi.cls) + 1 < len(mro) else None
+                    else:
+                        r = program.resolve_dotted(mod, f.value)
+                        base = r[1] if r and r[0] == "class" else None
+                        if args and dotted(args[0]) == "self":
+                            args = args[1:]
+                    if base and program.lookup_method(base, "__init__"):
+                        bfi = program.func(program.lookup_method(base, "__init__"))
+                        benv = {}
+                        for pn, a in zip(bfi.params[1:], args):
+                            benv[pn] = folder.eval(a, mod, env)
+                        for k in c.keywords:
+                            if k.arg:
+                                benv[k.arg] = folder.eval(k.value, mod, env)
+                        fields.update(_interp_init(program, folder, base, benv, depth + 1))
+            elif isinstance(st, ast.Assign) and len(st.targets) == 1:
+                t = st.targets[0]
+                v = folder.eval(st.value, mod, env)
+                if isinstance(t, ast.Attribute) and dotted(t.value) == "self":
+                    fields[t.attr] = v
+                    env["self." + t.attr] = v
+                elif isinstance(t, ast.Name):
+                    env[t.id] = v
+            elif isinstance(st, ast.If):
+                tv = folder.eval(st.test, mod, env)
+                if not is_unknown(tv):
+                    run(st.body if tv else st.orelse)
+                else:
+                    before = dict(fields)
+                    run(st.body)
+                    a = dict(fields)
+                    fields.clear(); fields.update(before)
+                    run(st.orelse)
+                    for k in set(a) | set(fields):
+                        if a.get(k, "<unset>") != fields.get(k, "<unset>"):
+                            fields[k] = unk("set differently on the two arms of `if %s`" % norm(st.test)[:40])
+            elif isinstance(st, ast.Raise):
+                return
+
+    run(fi.node.body)
+    return fields
+
+
+def _getter_field(program: Program, cls_qual: str, name: str):
+    """The field a property (or __str__-like method) `name` of the class returns: `return self.<f>`."""
+    q = program.lookup_method(cls_qual, name)
+    if q is None:
+        return name
+    rets = [n for n in ast.walk(program.func(q).node) if isinstance(n, ast.Return) and n.value is not None]
+    if len(rets) == 1 and isinstance(rets[0].value, ast.Attribute) and dotted(rets[0].value.value) == "self":
+        return rets[0].value.attr
+    return None
+
+
 def validate_identifier_model(program: Program, folder: Folder):
     """Model-conformance obligation (reported under C03.R5): the symbolic QN/NS used by the folder
     must be what identifier.py computes: uri = ns.uri + local; str = prefix:local, or local when the
-    prefix is empty; Namespace.__getitem__ mints QualifiedName(self, localpart).
+    prefix is empty; Namespace.__getitem__ mints QualifiedName(self, localpart).  Field names are not assumed:
+    constructors are run abstractly and the public accessors (uri, prefix, __str__) are resolved to the fields they return.
     Returns a list of (obligation, ok, detail)."""
     out = []
-    mod = "prov.identifier"
-    qn = program.cls(QNAME_CLS)
-    init = program.func(QNAME_CLS + ".__init__")
+    init = program.func(program.lookup_method(QNAME_CLS, "__init__"))
     params = init.params
     if len(params) != 3:
         raise AnalysisError("QualifiedName.__init__ signature changed: %s" % params)
     ns_p, loc_p = params[1], params[2]
+    uri_f, str_f = _getter_field(program, QNAME_CLS, "uri"), _getter_field(program, QNAME_CLS, "__str__")
     for prefix, expect_str in (("P", "P:L"), ("", "L")):
-        env = {ns_p: NS(prefix, "U#"), loc_p: "L"}
-        fields = {}
-        for s in init.node.body:
-            if isinstance(s, ast.Expr) and isinstance(s.value, ast.Call):
-                c = s.value
-                d = dotted(c.func) or ""
-                if d.endswith("__init__") and len(c.args) >= 2:
-                    fields["_uri"] = folder.eval(c.args[1], mod, env)
-                elif isinstance(c.func, ast.Attribute) and c.func.attr == "__init__" and len(c.args) == 1:
-                    fields["_uri"] = folder.eval(c.args[0], mod, env)  # super().__init__(uri)
-            elif isinstance(s, ast.Assign) and len(s.targets) == 1 and isinstance(s.targets[0], ast.Attribute):
-                fields[s.targets[0].attr] = folder.eval(s.value, mod, env)
-        out.append(("QualifiedName.uri == namespace.uri + localpart (prefix=%r)" % prefix, fields.get("_uri") == "U#L", repr(fields.get("_uri"))))
-        out.append(("str(QualifiedName) == %r (prefix=%r)" % (expect_str, prefix), fields.get("_str") == expect_str, repr(fields.get("_str"))))
-    # Identifier.__init__ stores str(uri) in _uri and .uri returns it
-    iinit = program.func(IDENT_CLS + ".__init__")
-    ok = False
-    for s in iinit.node.body:
-        if isinstance(s, ast.Assign) and isinstance(s.targets[0], ast.Attribute) and s.targets[0].attr == "_uri":
-            v = folder.eval(s.value, mod, {iinit.params[1]: "U#L"})
-            ok = v == "U#L"
-    out.append(("Identifier stores its URI unchanged", ok, ""))
-    # __str__ of QualifiedName returns _str; Namespace.__getitem__ returns QualifiedName(self, localpart)
-    sfn = program.func(QNAME_CLS + ".__str__")
-    rets = [n for n in ast.walk(sfn.node) if isinstance(n, ast.Return)]
-    out.append(("QualifiedName.__str__ returns _str", len(rets) == 1 and dotted(rets[0].value) == "self._str", ""))
-    gi = program.func(NAMESPACE_CLS + ".__getitem__")
-    made = []
+        fields = _interp_init(program, folder, QNAME_CLS, {ns_p: NS(prefix, "U#"), loc_p: "L"})
+        out.append(("QualifiedName.uri == namespace.uri + localpart (prefix=%r)" % prefix, fields.get(uri_f) == "U#L", repr(fields.get(uri_f))))
+        out.append(("str(QualifiedName) == %r (prefix=%r)" % (expect_str, prefix), fields.get(str_f) == expect_str, repr(fields.get(str_f))))
+    iinit = program.func(program.lookup_method(IDENT_CLS, "__init__"))
+    f_i = _interp_init(program, folder, IDENT_CLS, {iinit.params[1]: "U#L"})
+    out.append(("Identifier stores its URI unchanged", f_i.get(_getter_field(program, IDENT_CLS, "uri")) == "U#L", repr(f_i)))
+    out.append(("QualifiedName.__str__ returns the printed form computed by the constructor", str_f is not None, repr(str_f)))
+    # Namespace.__getitem__ (or a private helper it calls) mints QualifiedName(self, <its parameter>)
+    gi_q = program.lookup_method(NAMESPACE_CLS, "__getitem__")
+    gi = program.func(gi_q)
+    cands = [gi]
     for n in ast.walk(gi.node):
-        if isinstance(n, ast.Call) and dotted(n.func) == "QualifiedName":
-            amap = {}
-            for i, a in enumerate(n.args):
-                if i + 1 < len(params):
-                    amap[params[i + 1]] = a
-            for k in n.keywords:
-                if k.arg:
-                    amap[k.arg] = k.value
-            if dotted(amap.get(ns_p)) == "self" and dotted(amap.get(loc_p)) == gi.params[1]:
-                made.append(n)
+        if isinstance(n, ast.Call) and isinstance(n.func, ast.Attribute) and dotted(n.func.value) == "self":
+            hq = program.lookup_method(NAMESPACE_CLS, n.func.attr)
+            if hq and any(dotted(a) == gi.params[1] for a in n.args):
+                cands.append(program.func(hq))
+    made = []
+    for f in cands:
+        for n in ast.walk(f.node):
+            if isinstance(n, ast.Call) and dotted(n.func) == "QualifiedName":
+                amap = {}
+                for i, a in enumerate(n.args):
+                    if i + 1 < len(params):
+                        amap[params[i + 1]] = a
+                for k in n.keywords:
+                    if k.arg:
+                        amap[k.arg] = k.value
+                if dotted(amap.get(ns_p)) == "self" and dotted(amap.get(loc_p)) in f.params[1:]:
+                    made.append(n)
     out.append(("Namespace.__getitem__ mints QualifiedName(self, localpart)", len(made) >= 1, ""))
-    ninit = program.func(NAMESPACE_CLS + ".__init__")
-    st = {}
-    for s in ninit.node.body:
-        if isinstance(s, ast.Assign) and isinstance(s.targets[0], ast.Attribute) and isinstance(s.value, ast.Name):
-            st[s.targets[0].attr] = s.value.id
-    out.append(("Namespace stores prefix and uri unchanged", st.get("_prefix") == ninit.params[1] and st.get("_uri") == ninit.params[2], repr(st)))
+    ninit = program.func(program.lookup_method(NAMESPACE_CLS, "__init__"))
+    f_n = _interp_init(program, folder, NAMESPACE_CLS, {ninit.params[1]: "P", ninit.params[2]: "U#"})
+    pf, uf = _getter_field(program, NAMESPACE_CLS, "prefix"), _getter_field(program, NAMESPACE_CLS, "uri")
+    out.append(("Namespace stores prefix and uri unchanged", f_n.get(pf) == "P" and f_n.get(uf) == "U#", repr({k: v for k, v in f_n.items() if k in (pf, uf)})))
     return out
